@@ -1032,7 +1032,8 @@ theorem wp_forIn {β γ : Type} (l : List β) (f : β → γ → M (ForInStep γ
 /-- the state-independent part of what TLV processing can do to the conversation -/
 structure TlvInv (I : Conv → Prop) : Prop where
   smp : ∀ c m, I c → I { c with smp := m }
-  disc : ∀ c, I c → I { c with lastMessageStateChange := none, msgState := .finished, smp := {}, ake := none, keys := {} }
+  disc : ∀ c, I c → I { c with lastMessageStateChange := none, msgState := .finished, smp := {}, ake := none,
+                                        keys := { oldMACKeys := c.keys.oldMACKeys ++ c.keys.macHistory.map (·.key) } }
 
 theorem SmpFrame.inv {I : Conv → Prop} (hI : TlvInv I) {c c' : Conv} (h : SmpFrame c c') (hc : I c) : I c' := by
   unfold SmpFrame at h; rw [h]; exact hI.smp _ _ hc
@@ -2095,7 +2096,8 @@ theorem processSMPTLV_safe (K : Crypto) (t : Tlv) (s : MState)
 
 /-- loop of `processTLVs` with an arbitrary invariant that `processSMPTLV` and the disconnect TLV preserve -/
 theorem processTLVs_gen (K : Crypto) (tlvs : List Tlv) (x : Bytes) (I : Conv → Prop) (S : String → Prop)
-    (hdisc : ∀ c, I c → I { c with lastMessageStateChange := none, msgState := .finished, smp := {}, ake := none, keys := {} })
+    (hdisc : ∀ c, I c → I { c with lastMessageStateChange := none, msgState := .finished, smp := {}, ake := none,
+                                        keys := { oldMACKeys := c.keys.oldMACKeys ++ c.keys.macHistory.map (·.key) } })
     (hsmp : ∀ t s, I s.conv → wp (processSMPTLV K t) (fun _ s' => I s'.conv) S s)
     (hlen : ∀ t ∈ tlvs, t.value.length = t.len) (s : MState) (h : I s.conv) :
     wp (processTLVs K tlvs x) (fun _ s' => I s'.conv) S s := by
@@ -2126,7 +2128,8 @@ theorem processTLVs_gen (K : Crypto) (tlvs : List Tlv) (x : Bytes) (I : Conv →
     | error e => exact h'
 
 theorem tailRest_gen (K : Crypto) (tlvs : List Tlv) (x : Bytes) (I : Conv → Prop) (S : String → Prop)
-    (hdisc : ∀ c, I c → I { c with lastMessageStateChange := none, msgState := .finished, smp := {}, ake := none, keys := {} })
+    (hdisc : ∀ c, I c → I { c with lastMessageStateChange := none, msgState := .finished, smp := {}, ake := none,
+                                        keys := { oldMACKeys := c.keys.oldMACKeys ++ c.keys.macHistory.map (·.key) } })
     (hsmp : ∀ t s, I s.conv → wp (processSMPTLV K t) (fun _ s' => I s'.conv) S s)
     (hgen : ∀ c c', GenRel c c' → I c → I c')
     (hlen : ∀ t ∈ tlvs, t.value.length = t.len) (s : MState) (h : I s.conv) :
@@ -2157,7 +2160,8 @@ theorem tailRest_gen (K : Crypto) (tlvs : List Tlv) (x : Bytes) (I : Conv → Pr
         exact ⟨s2.conv, h2, Or.inl ⟨hs1, hs2⟩⟩
 
 theorem tail_gen (K : Crypto) (dm : DataMsg) (tlvs : List Tlv) (x : Bytes) (I : Conv → Prop) (S : String → Prop)
-    (hdisc : ∀ c, I c → I { c with lastMessageStateChange := none, msgState := .finished, smp := {}, ake := none, keys := {} })
+    (hdisc : ∀ c, I c → I { c with lastMessageStateChange := none, msgState := .finished, smp := {}, ake := none,
+                                        keys := { oldMACKeys := c.keys.oldMACKeys ++ c.keys.macHistory.map (·.key) } })
     (hsmp : ∀ t s, I s.conv → wp (processSMPTLV K t) (fun _ s' => I s'.conv) S s)
     (hgen : ∀ c c', GenRel c c' → I c → I c')
     (hlen : ∀ t ∈ tlvs, t.value.length = t.len) (s : MState)
